@@ -2,7 +2,7 @@
 from typing import Dict
 
 from .engine import Batch, Check
-from . import gen_a, gen_b
+from . import gen_a, gen_b, oracles_a
 
 
 def _wd_c03(where):
@@ -72,5 +72,66 @@ def registry() -> Dict[str, Check]:
         rule="Every accepted limit order of every history is an instance; non-trivial = off-grid prices on both sides "
              "were accepted in the run.",
         need_probes=["c19_off_grid_buy", "c19_off_grid_sell", "c19_on_grid"],
+    )
+    reg["C05"] = Check(
+        "C05", {"C05"},
+        [Batch("A-ledger", gen_a.gen_world, 400, 8000, driver="A", budget_s=30.0, profile="ledger"),
+         Batch("B-mix", gen_b.gen_history, 2000, 40000, driver="B", budget_s=5.0)],
+        plugins=lambda: [oracles_a.LedgerPlugin()],
+        nontrivial=lambda s: s["stats"].get("fills", 0) >= 3,
+        rule="Driver-A runs (markets incl. index, scripted normal/HFT agents, built-in agents) and driver-B "
+             "histories; non-trivial = at least 3 fills.",
+        need_probes=["self_trade", "round_ge3_fills"],
+    )
+    reg["C06"] = Check(
+        "C06", {"C06"},
+        [Batch("A-clock", gen_a.gen_world, 300, 6000, driver="A", budget_s=60.0, profile="clock")],
+        plugins=lambda: [oracles_a.ClockPlugin(), oracles_a.IndexPlugin()],
+        nontrivial=lambda s: s["probes"].get("storage_chunk_boundary_crossed", 0) > 0 and s["stats"].get("fills", 0) > 0,
+        rule="Driver-A runs with 1-5 sessions, small storage/generation chunks or > 200 steps; non-trivial = a storage "
+             "chunk boundary was crossed and at least one fill happened.",
+        need_probes=["storage_chunk_boundary_crossed"],
+    )
+    reg["C09"] = Check(
+        "C09", {"C09", "C03"},
+        [Batch("A-sessions", gen_a.gen_world, 500, 10000, driver="A", budget_s=30.0, profile="sessions")],
+        plugins=lambda: [oracles_a.SessionRulesPlugin()],
+        nontrivial=lambda s: s["probes"].get("normal_cap_reached", 0) + s["probes"].get("hft_cap_reached", 0) > 0,
+        rule="Driver-A runs over session lists with all flag combinations, caps incl. 0, rates incl. 0 and 1, "
+             "scripted normal and HFT agents, built-in events; non-trivial = a cap was reached.",
+        need_probes=["normal_cap_reached", "hft_cap_reached", "hft_coin_yes", "hft_coin_no"],
+    )
+    reg["C10"] = Check(
+        "C10", {"C10", "C04"},
+        [Batch("A-logger", gen_a.gen_world, 400, 8000, driver="A", budget_s=30.0, profile="logger")],
+        plugins=lambda: [oracles_a.LoggerPlugin()],
+        nontrivial=lambda s: s["stats"].get("fills", 0) > 0 and s["stats"].get("expiries", 0) > 0 and s["stats"].get("cancels", 0) > 0,
+        rule="Driver-A runs with all event kinds; non-trivial = the run contained fills, cancels and expiries.",
+    )
+    reg["C11"] = Check(
+        "C11", {"C11"},
+        [Batch("A-callbacks", gen_a.gen_world, 400, 8000, driver="A", budget_s=30.0, profile="callbacks")],
+        plugins=lambda: [oracles_a.CallbackPlugin()],
+        nontrivial=lambda s: s["stats"].get("fills", 0) > 0 and s["stats"].get("cancels", 0) > 0,
+        rule="Driver-A runs with scripted normal and HFT agents; non-trivial = fills and cancels happened.",
+        need_probes=["self_trade_callback", "round_ge3_fills"],
+    )
+    reg["C13"] = Check(
+        "C13", {"C13"},
+        [Batch("A-hooks", gen_a.gen_world, 400, 8000, driver="A", budget_s=30.0, profile="hooks")],
+        plugins=lambda: [oracles_a.HooksPlugin()],
+        nontrivial=lambda s: s["stats"].get("probe_calls", 0) > 0 and s["stats"].get("fills", 0) > 0,
+        rule="Driver-A runs with 1-6 generated probe events (hook kinds x time lists x market filters); "
+             "non-trivial = probes were invoked and fills happened.",
+        need_probes=["hook_altered_order"],
+    )
+    reg["C17"] = Check(
+        "C17", {"C17"},
+        [Batch("A-index", gen_a.gen_world, 300, 6000, driver="A", budget_s=30.0, profile="index")],
+        plugins=lambda: [oracles_a.IndexPlugin()],
+        nontrivial=lambda s: s["probes"].get("unequal_weights_checked", 0) > 0 and s["stats"].get("fills", 0) > 0,
+        rule="Driver-A runs with an index market over 2-4 components with unequal outstanding shares; "
+             "non-trivial = unequal weights and at least one fill.",
+        need_probes=["unequal_weights_checked"],
     )
     return reg
